@@ -206,6 +206,14 @@ func sanAtoms() []struct {
 		gn   *der.Node
 	}{
 		mk("dns:good", certgen.GNDNS("www.example.com")),
+		// names that relate to one another and to the templates' common names (CN = example.com / www.example.com /
+		// a@example.com): exact copies, case variants, a trailing dot, a covering wildcard — rules that look for "the"
+		// matching entry must not care which of several candidates comes first
+		mk("dns:good-CASE", certgen.GNDNS("WWW.Example.com")),
+		mk("dns:cn", certgen.GNDNS("example.com")),
+		mk("dns:cn-CASE", certgen.GNDNS("EXAMPLE.com")),
+		mk("dns:good-dot", certgen.GNDNS("www.example.com.")),
+		mk("dns:wildcard-covering", certgen.GNDNS("*.example.com")),
 		mk("dns:wildcard", certgen.GNDNS("*.example.org")),
 		mk("dns:bare*", certgen.GNDNS("*")),
 		mk("dns:_sld", certgen.GNDNS("www.ex_ample.com")),
@@ -231,6 +239,7 @@ func sanAtoms() []struct {
 		mk("uri:opaque", certgen.GNURI("mailto:a@example.com")),
 		mk("uri:nohost", certgen.GNURI("https:///path")),
 		mk("email:good", certgen.GNEmail("a@example.com")),
+		mk("email:CASE", certgen.GNEmail("A@Example.com")),
 		mk("email:bad", certgen.GNEmail("not an address")),
 		mk("dirname", certgen.GNDirName(certgen.Name(certgen.ATV{OID: certgen.OIDCN, Tag: 12, Val: "dir"}))),
 		mk("othername", certgen.GNOther([]int{1, 3, 6, 1, 4, 1, 311, 20, 2, 3}, der.Str(12, "upn@example.com"))),
